@@ -3,8 +3,8 @@
    Print Assumptions follows every theorem.   *)
 
 From Coq Require Import List NArith Bool Sorting Permutation.
-From Ice Require Import Base Spec Chunk Postings Enumerator IntCoder Run MergePostings DocValues DvWriter Stored StoredWriter.
-From IceProofs Require MergeAlgebra_Proofs Docnums_Proofs Sort_Proofs Enumerator_Proofs MergePostings_Proofs DvWriter_Proofs StoredWriter_Proofs.
+From Ice Require Import Base Spec Chunk Postings Enumerator IntCoder Run MergePostings DocValues DvWriter Stored StoredWriter Units.
+From IceProofs Require MergeAlgebra_Proofs Docnums_Proofs Sort_Proofs Enumerator_Proofs MergePostings_Proofs DvWriter_Proofs StoredWriter_Proofs Units_Proofs.
 Import ListNotations.
 Open Scope N_scope.
 
@@ -330,3 +330,15 @@ Theorem copy_correct :
     Ok (offs1, c1)).
 Proof. exact @StoredWriter_Proofs.copy_correct. Qed.
 Print Assumptions copy_correct.
+
+(* the k-way merge of the input dictionaries visits every (term, segment) pair once, in sorted order; the model this is proved about is run against the real enumerator *)
+Theorem enumerator_script_is_sorted_union :
+    forall (its : list vitr) (fuel : nat),
+    Forall Enumerator_Proofs.key_sorted its ->
+    Forall Enumerator_Proofs.empty_key_nz its ->
+    (total_pairs its < fuel)%nat ->
+    exists tr : list (gokey * nat * N),
+    map Units_Proofs.forget_nil tr = spec_triples its /\
+    run_enum_script its (Units_Proofs.cur_next fuel) = Units_Proofs.w_steps tr.
+Proof. exact @Units_Proofs.run_enum_script_spec. Qed.
+Print Assumptions enumerator_script_is_sorted_union.
